@@ -254,3 +254,36 @@ def add_smbo_to(chk, r, n, **kw):
     if st:
         k, dis, keys, samples = st
         chk.corr(SMBO_NAME, k, dis, keys, samples)
+
+
+# ----------------------------------------------------------------------------- DirectAlgorithm, complete model
+
+DIR_NAME = ("whole optimizer DirectAlgorithm (list of sub-space boxes: centre, biggest dimension with recorded tie coins, first-unscored selection, "
+            "first strict maximum of the recorded Lipschitz bounds, numpy's array_split into three with empty parts skipped, removal of the parent, the "
+            "score stored on the removed parent after a split, the whole space appended again by every finish_initialization, constraint check "
+            "with move_climb(epsilon_mod=0.3) repair): GFO.Model.Direct driven through the driver model by the recorded tape must emit the same "
+            "positions, rows, trace, best result or the same exception, the tracker, X_sample / Y_sample, every sub-space (sizes, centre, score, bound) "
+            "and consume the tape exactly")
+
+
+def direct_stage(chk, r, n, constraint_p=0.4, nonfinite_p=0.3):
+    sps = [bkgen.scenario(r, "DirectAlgorithm", constraint_p=constraint_p, nonfinite_p=nonfinite_p, smbo_iters=25) for _ in range(n)]
+    dis, keys, samples = [], set(), []
+    k = 0
+    for i in range(0, len(sps), 60):
+        for s, o in loc.run_batch(sps[i:i + 60], loc.run_direct_scenario):
+            k += 1
+            keys.add((len(s["space"]), bool(s.get("constraint")), tuple(sorted(o["tape_kinds"])),
+                      "raised-as-predicted" if o["raised"] and o["diff"] is None else ("raised" if o["raised"] else "ok")))
+            if o["diff"] is not None:
+                dis.append(dict(case=s, diff=o["diff"]))
+            elif len(samples) < 2:
+                samples.append(dict(kwargs={k_: str(v) for k_, v in s["opt_kwargs"].items()}, tape_entries=o["tape_len"], tape_kinds=o["tape_kinds"], raised=o["raised"]))
+    return k, dis, keys, samples
+
+
+def add_direct_to(chk, r, n, **kw):
+    st = chk.stage("whole-optimizer DIRECT correspondence", direct_stage, chk, r, n, **kw)
+    if st:
+        k, dis, keys, samples = st
+        chk.corr(DIR_NAME, k, dis, keys, samples)
